@@ -56,7 +56,12 @@ pub enum Root {
     Terminal(u16, u32),
     /// (family index, white king pick, black king pick, black to move)
     LowMobility(u8, u16, u16, bool),
+    /// capture-rich positions (several queens, many pieces en prise) where the quiescence search
+    /// explodes: a short game from one of the promotion-heavy start positions
+    Explosive(u8, Vec<u16>),
 }
+
+pub const EXPLOSIVE_STARTS: [u16; 5] = [27, 28, 29, 44, 3];
 
 pub fn root_pos(r: &Root) -> Option<Pos> {
     match r {
@@ -82,6 +87,10 @@ pub fn root_pos(r: &Root) -> Option<Pos> {
                 }
                 None
             }
+        }
+        Root::Explosive(start, picks) => {
+            let case = crate::gen::PlayCase { start: EXPLOSIVE_STARTS[*start as usize % EXPLOSIVE_STARTS.len()], picks: picks.clone() };
+            Some(crate::gen::play(super::c01::starts(), &case).positions.pop().unwrap())
         }
         Root::LowMobility(fam, wk, bk, black) => {
             let base = Pos::from_fen(LOW_MOBILITY[*fam as usize % LOW_MOBILITY.len()]).unwrap();
@@ -159,6 +168,7 @@ impl Prop for TerminationSync {
             4 => sparse_source().prop_map(Root::Sparse),
             2 => (any::<u16>(), any::<u32>()).prop_map(|(a, b)| Root::Terminal(a, b)),
             3 => (0u8..(LOW_MOBILITY.len() as u8), any::<u16>(), any::<u16>(), any::<bool>()).prop_map(|(a, b, c, d)| Root::LowMobility(a, b, c, d)),
+            2 => (0u8..5, prop::collection::vec(any::<u16>(), 0..14)).prop_map(|(a, b)| Root::Explosive(a, b)),
         ];
         (
             root,
@@ -196,6 +206,10 @@ impl Prop for TerminationSync {
         if depth.is_none() && cancel.is_none() && !terminal {
             // an unlimited search needs a Stop to end
             cancel = Some(((case.seed % 30_000) as u32).max(1));
+        }
+        if matches!(case.root, Root::Explosive(..)) && cancel.is_none() {
+            // capture-rich roots: always with a Stop (their iterations can take very long)
+            cancel = Some(((case.seed % 50_000) as u32).max(1));
         }
         let has_piece = pos.b.iter().flatten().any(|x| x.1 != Kind::P && x.1 != Kind::K);
         if low && has_piece && depth.map(|d| d > 6).unwrap_or(false) {
@@ -245,6 +259,9 @@ impl Prop for TerminationSync {
                 loc.class("cancel_landed_inside_search");
                 loc.nontrivial(&(pos.fen4(), format!("{:?}", spec)));
             }
+        }
+        if matches!(case.root, Root::Explosive(..)) {
+            loc.class("explosive_root");
         }
         if low {
             loc.class("low_mobility_root");
@@ -452,7 +469,9 @@ pub fn plan(ctx: &Ctx) -> Plan {
         ],
         rule: "node-clock part (deterministic): roots from sparse generated positions, terminal positions (hand list + \
                the terminal positions of the K+X v K families) and a low-mobility family (locked pawn walls confining both \
-               kings, kings moved inside their regions) where every iteration costs fewer nodes than the poll interval; \
+               kings, kings moved inside their regions) where every iteration costs fewer nodes than the poll interval, and \
+               capture-rich positions (short games from the promotion-heavy start positions) where the quiescence search \
+               explodes; the node clock counts quiescence nodes too; \
                depth none / 1-6 / 50-150 (single worker); 1-32 workers (>1 under the baton scheduler); the cancellation flag raised by a \
                node clock at N in {0,1,small,9999,10000,10001,20000,large}. Oracle: no panic; while the flag is up at most \
                20 x 10000 x workers further nodes (the hook turns an overrun into a finite failure); a terminal root \
